@@ -3,6 +3,7 @@ package main
 // C06 — reading a counter file is total and faithful (structural part).
 
 import (
+	"os"
 	"fmt"
 	"sort"
 	"strings"
@@ -248,6 +249,9 @@ func c06Shape(c *Ctx, m *Module, parse *ssa.Function) {
 				}
 			})
 			detail = "path condition " + shortDesc(F.String())
+			if os.Getenv("VERIF_DEBUG_C06") != "" {
+				fmt.Printf("C06F root=%d b=%d: %s\n", d.Index, b.Index, F.String())
+			}
 			if len(lits) == 0 {
 				continue
 			}
